@@ -8,3 +8,7 @@ let () =
 let () =
   register "sched" (fun idx _ -> Printf.printf "sched %d ok=* finished=* file=* outcomes=*\n" idx);
   register "parallel" (fun idx _ -> Printf.printf "parallel %d rounds=* bad=*\n" idx)
+
+let () =
+  register "lockfiles" (fun idx _ -> Printf.printf "lockfiles %d ok=* n=*\n" idx);
+  register "unlockfiles" (fun idx _ -> Printf.printf "unlockfiles %d n=*\n" idx)
